@@ -274,6 +274,11 @@ static void gen_case(vprng_t *r)
 	add_text("^file[12]", QB_LOG_FILTER_FILE_REGEX); add_text("\\.c$", QB_LOG_FILTER_FILE_REGEX); add_text("file[0-9]*\\.c", QB_LOG_FILTER_FILE_REGEX);
 	add_text("_3$", QB_LOG_FILTER_FUNCTION_REGEX); add_text("^fn_[01]_", QB_LOG_FILTER_FUNCTION_REGEX);
 	add_text("^one", QB_LOG_FILTER_FORMAT_REGEX); add_text("one.*%d", QB_LOG_FILTER_FORMAT_REGEX); add_text("^[a-d]", QB_LOG_FILTER_FORMAT_REGEX);
+	/* patterns that mean one thing as a basic and another as an extended regular expression (the library compiles them
+	 * as basic ones: grouping and alternation are backslashed, a bare + ? | ( ) { is a literal) */
+	add_text("^file\\(0\\|2\\)\\.c$", QB_LOG_FILTER_FILE_REGEX); add_text("file[0-9]\\{1\\}\\.c", QB_LOG_FILTER_FILE_REGEX);
+	add_text("^fn_\\(0\\|1\\)_[0-2]$", QB_LOG_FILTER_FUNCTION_REGEX); add_text("fn_1_1\\|fn_2_2", QB_LOG_FILTER_FUNCTION_REGEX); add_text("fn_(0|1)", QB_LOG_FILTER_FUNCTION_REGEX);
+	add_text("two\\? one", QB_LOG_FILTER_FORMAT_REGEX); add_text("a+", QB_LOG_FILTER_FORMAT_REGEX); add_text("\\(one\\|done\\)$", QB_LOG_FILTER_FORMAT_REGEX);
 
 	nops = 0;
 	int want = 30 + (int)vp_u(r, MAXOPS - 31);
